@@ -64,6 +64,14 @@ pub fn alphabet(core: bool) -> Vec<(&'static str, Call)> {
         ("raw_copy-stored", Call::RawCopy { src: 0, idx: 0, rename: None, raw_open: false }),
         ("raw_copy-deflated", Call::RawCopy { src: 0, idx: 1, rename: None, raw_open: false }),
         ("raw_copy-renamed", Call::RawCopy { src: 0, idx: 0, rename: Some("r".into()), raw_open: false }),
+        // the "bulk" operations (own, shallower search): single write calls larger than the codecs' internal buffers, and
+        // alignments that are not powers of two requested once the archive has grown past 64 KiB
+        ("bulk-write-300KiB-incompressible", Call::Write(crate::util::Rng(0xB01C).bytes(300 << 10))),
+        ("bulk-write-70000", Call::Write(vec![b'q'; 70_000])),
+        ("bulk-aligned-3", Call::StartAligned { name: "al3".into(), opts: o(0), align: 3 }),
+        ("bulk-aligned-1000-deflated", Call::StartAligned { name: "al1000".into(), opts: o(8), align: 1000 }),
+        ("bulk-aligned-4095", Call::StartAligned { name: "al4095".into(), opts: o(0), align: 4095 }),
+        ("bulk-start_file-zstd", Call::StartFile { name: "bz".into(), opts: o(93) }),
         ("finish", Call::Finish),
         ("drop", Call::Drop),
     ];
@@ -593,6 +601,9 @@ pub fn run(args: &Args) -> i32 {
         let drop = ["aligned-1", "add_directory-slash", "write-zip64-record", "start_file-zstd", "raw_copy-stored"];
         full.retain(|(n, _)| !drop.contains(n));
     }
+    let bulk_extra = ["start_file-stored", "start_file-deflated", "write-xyz", "start_extra", "write-valid-record", "end_extra", "add_directory", "finish", "drop"];
+    let bulk: Vec<(&'static str, Call)> = full.iter().filter(|(n, _)| n.starts_with("bulk-") || bulk_extra.contains(n)).cloned().collect();
+    full.retain(|(n, _)| !n.starts_with("bulk-"));
     let core = alphabet(true);
     let (d_full, d_core) = if thorough { (6, 9) } else { (5, 7) };
     ctx.rule = format!(
@@ -621,6 +632,15 @@ pub fn run(args: &Args) -> i32 {
     crate::diag!("  [C12] core alphabet depth {d_core}: states {} transitions {} per level {:?} at {:.1}s", r2.states, r2.transitions, r2.per_level, ctx.elapsed());
     if capped2 {
         ctx.cap(format!("core-alphabet search stopped at {} states", r2.states));
+    }
+    {
+        let d_bulk = if thorough { 5 } else { 4 };
+        let (r7, c7) = search(&bulk, d_bulk, &srcs, &mut ctx.stats, cap, 7);
+        crate::diag!("  [C12] bulk alphabet depth {d_bulk}: states {} transitions {} per level {:?} at {:.1}s", r7.states, r7.transitions, r7.per_level, ctx.elapsed());
+        if c7 {
+            ctx.cap("bulk-alphabet search stopped at the state cap".to_string());
+        }
+        ctx.bound("alphabet_bulk", json!({"ops": bulk.iter().map(|x| x.0).collect::<Vec<_>>(), "depth": d_bulk, "states_per_level": r7.per_level}));
     }
     // start from a non-initial state: the same searches on a writer re-opened with new_append on a finished archive
     // (two entries and a comment already present; the crate starts such a writer in its after-raw-copy mode)
